@@ -159,21 +159,76 @@ static bool cab_line(const std::vector<std::string> &w) {
 }
 
 // ---------------------------------------------------------------- object pool
+// The probe type's constructor and destructor run a script of operations on the SAME pool:
+// `A h v … a` = alloc for slot h an object of value v whose constructor makes the calls in between;
+// `F h … f` = free the object of slot h, its destructor making the calls in between.
+struct PNode { bool is_alloc; uint64_t h, v; std::vector<PNode> kids; };
+static void pool_exec(const std::vector<PNode> &nodes);
+
 static uint64_t g_ctor = 0, g_dtor = 0;
 static std::set<const void *> g_live_addr;
 static bool g_alias = false;
 struct Probe {
     uint64_t v; uint64_t pad[3];
-    explicit Probe(uint64_t x) : v(x) {
+    const std::vector<PNode> *dtor_script;
+    Probe(uint64_t x, const std::vector<PNode> *ctor_script) : v(x), dtor_script(nullptr) {
         ++g_ctor; pad[0] = pad[1] = pad[2] = ~x;
         if (!g_live_addr.insert(this).second) g_alias = true;      // storage still in use
+        if (ctor_script) pool_exec(*ctor_script);                   // nested calls on the same pool
+        if (v != x || pad[1] != ~x) g_alias = true;                 // a nested object was built on top of this one
     }
-    ~Probe() { ++g_dtor; if (g_live_addr.erase(this) != 1) g_alias = true; v = 0xdeaddeaddeadull; }
+    ~Probe() {
+        ++g_dtor;
+        uint64_t x = v;
+        if (dtor_script) pool_exec(*dtor_script);                   // storage is in use until the destructor returns
+        if (v != x || pad[1] != ~x) g_alias = true;
+        if (g_live_addr.erase(this) != 1) g_alias = true;
+        v = 0xdeaddeaddeadull;
+    }
 };
 static const uint64_t kPoolSlots = 16;
 static std::unique_ptr<tbox::ObjectPool<Probe>> g_pool;
 static Probe *g_slot[kPoolSlots];
+static bool g_reserved[kPoolSlots];  // destination of an alloc in progress
 static uint64_t g_leaked = 0;      // objects abandoned alive when their pool was destroyed (never destructed, never freed)
+
+static void pool_exec(const std::vector<PNode> &nodes) {
+    for (auto &n : nodes) {
+        if (n.is_alloc) {
+            if (g_slot[n.h] || g_reserved[n.h]) continue;           // not applicable: the call and what it nests are not made
+            g_reserved[n.h] = true;
+            Probe *p = g_pool->alloc(n.v, &n.kids);
+            g_reserved[n.h] = false;
+            g_slot[n.h] = p;
+        } else {
+            if (!g_slot[n.h]) continue;
+            Probe *p = g_slot[n.h]; g_slot[n.h] = nullptr;
+            p->dtor_script = &n.kids;
+            g_pool->free(p);
+        }
+    }
+}
+// recursive descent over the token list; false = malformed
+static bool pool_parse(const std::vector<std::string> &w, size_t &i, std::vector<PNode> &out, int depth, bool top) {
+    while (i < w.size()) {
+        if (w[i] == "A") {
+            PNode n{true, 0, 0, {}};
+            if (depth >= 16 || i + 2 >= w.size() || !num(w[i + 1], kPoolSlots, n.h) || !num(w[i + 2], 1000000, n.v)) return false;
+            i += 3;
+            if (!pool_parse(w, i, n.kids, depth + 1, false)) return false;
+            if (i >= w.size() || w[i] != "a") return false;
+            ++i; out.push_back(std::move(n));
+        } else if (w[i] == "F") {
+            PNode n{false, 0, 0, {}};
+            if (depth >= 16 || i + 1 >= w.size() || !num(w[i + 1], kPoolSlots, n.h)) return false;
+            i += 2;
+            if (!pool_parse(w, i, n.kids, depth + 1, false)) return false;
+            if (i >= w.size() || w[i] != "f") return false;
+            ++i; out.push_back(std::move(n));
+        } else return !top;       // a closing token: the caller checks it
+    }
+    return true;
+}
 
 static void pool_status() {
     std::string vals;
@@ -188,18 +243,24 @@ static void pool_status() {
               << " leaked=" << g_leaked << "\n";
 }
 static void pool_free_all() {
-    for (auto &p : g_slot) if (p) { g_pool->free(p); p = nullptr; }
+    for (auto &p : g_slot) if (p) { p->dtor_script = nullptr; g_pool->free(p); p = nullptr; }
 }
 static bool pool_line(const std::vector<std::string> &w) {
     uint64_t h = 0, v = 0;
     const std::string &op = w[1];
     if (op == "alloc" && w.size() == 4 && num(w[2], kPoolSlots, h) && num(w[3], 1000000, v)) {
         if (g_slot[h]) { std::cout << "P busy\n"; return true; }
-        g_slot[h] = g_pool->alloc(v);
+        g_slot[h] = g_pool->alloc(v, (const std::vector<PNode> *)nullptr);
         pool_status();
     } else if (op == "free" && w.size() == 3 && num(w[2], kPoolSlots, h)) {
         if (!g_slot[h]) { std::cout << "P none\n"; return true; }
+        g_slot[h]->dtor_script = nullptr;
         g_pool->free(g_slot[h]); g_slot[h] = nullptr;
+        pool_status();
+    } else if (op == "x" && w.size() <= 402) {
+        std::vector<PNode> prog; size_t i = 2;
+        if (!pool_parse(w, i, prog, 0, true) || i != w.size()) return false;
+        pool_exec(prog);
         pool_status();
     } else if (op == "new" && w.size() == 3 && (w[2] == "max" || num(w[2], 100000, v))) {
         pool_free_all();
